@@ -29,11 +29,77 @@ UWORDS = {
     "jp": ["こんにちは", "会議", "資料"],
     "zh": ["你好", "会议", "报告"],
     "emoji": ["\U0001f600", "—", "€"],
+    "thai": ["สวัสดี", "ประชุม", "รายงาน"],
+    "greek": ["Καλημέρα", "αναφορά", "σύσκεψη"],
 }
 # (charset, families whose characters it can encode)
 CHARSETS = [("utf-8", ["latin", "cyr", "jp", "zh", "emoji"]), ("iso-8859-1", ["latin"]), ("iso-8859-15", ["latin"]),
             ("windows-1252", ["latin"]), ("koi8-r", ["cyr"]), ("windows-1251", ["cyr"]), ("shift_jis", ["jp"]),
-            ("iso-2022-jp", ["jp"]), ("euc-jp", ["jp"]), ("gb2312", ["zh"]), ("big5", ["zh"]), ("utf-8", ["latin"])]
+            ("iso-2022-jp", ["jp"]), ("euc-jp", ["jp"]), ("gb2312", ["zh"]), ("big5", ["zh"]), ("utf-8", ["latin"]),
+            ("iso-8859-9", ["latin"]), ("iso-8859-2", ["latin"]), ("tis-620", ["thai"]), ("iso-8859-7", ["greek"]), ("gbk", ["zh"]),
+            ("cp932", ["jp"]), ("windows-1254", ["latin"])]
+
+_REPERTOIRE: dict = {}
+_SENSITIVE: dict = {}
+
+
+def sensitive(cs: str) -> list[str]:
+    """The characters of the charset on which some OTHER Python codec that decodes the charset's whole repertoire (a
+    look-alike / 'superset' code page) gives a different character.  Computed from the codec registry, not listed by hand:
+    these are the code points where decoding with a near-identical codec goes wrong unnoticed."""
+    if cs in _SENSITIVE:
+        return _SENSITIVE[cs]
+    import codecs
+    import encodings.aliases
+    rep = repertoire(cs)
+    out = set()
+    if rep:
+        try:
+            own = codecs.lookup(cs).name
+        except LookupError:
+            own = cs
+        seqs = [c.encode(cs) for c in rep]
+        blob = b"".join(seqs)
+        for k in sorted(set(encodings.aliases.aliases.values())):
+            try:
+                if codecs.lookup(k).name == own:
+                    continue
+                other = blob.decode(k)
+            except Exception:  # noqa  (not a text codec, or it does not cover the repertoire)
+                continue
+            if len(other) != len(rep):
+                continue
+            diff = [a for a, b in zip(rep, other) if a != b]
+            if 0 < len(diff) <= len(rep) // 10:
+                out.update(diff)
+    _SENSITIVE[cs] = sorted(out)
+    return _SENSITIVE[cs]
+
+
+def repertoire(cs: str) -> list[str]:
+    """Every non-ASCII character the codec can represent (1- and 2-byte sequences that round-trip), without characters
+    Python treats as white space or line boundary.  Words are drawn from the WHOLE repertoire, so the few code points on
+    which look-alike code pages differ (wave dash, C1 range, box drawing, ...) are sampled like any other."""
+    if cs in _REPERTOIRE:
+        return _REPERTOIRE[cs]
+    out = []
+    try:
+        seqs = [bytes([b]) for b in range(0x80, 0x100)]
+        if cs.lower().replace("-", "_") in ("shift_jis", "cp932", "euc_jp", "gb2312", "gbk", "big5"):
+            seqs += [bytes([a, b]) for a in range(0x81, 0xFF) for b in range(0x40, 0xFF)]
+        for sq in seqs:
+            try:
+                ch = sq.decode(cs)
+            except UnicodeDecodeError:
+                continue
+            if len(ch) == 1 and ord(ch) >= 0x80 and ch.encode(cs) == sq and not ch.isspace() and ch not in "\x85\u2028\u2029" \
+                    and not (0xE000 <= ord(ch) <= 0xF8FF):
+                out.append(ch)
+    except LookupError:
+        pass
+    _REPERTOIRE[cs] = out
+    return out
+
 NAMES = ["John Doe", "Doe, John", "Smith, Jane (Sales)", "O'Brien", "Dr. A. \"Ace\" Jones", "Bob", "a.b", "Jürgen Müller",
          "Müller, Jürgen", "Иван Петров", "山田 太郎", "Team <core>", "x@y (not an address)", "semi;colon", "",
          # quotation marks, apostrophes and other punctuation at the very start / end of the display name
@@ -122,6 +188,16 @@ def gen_spec(rng, fixture_docx=None, max_att=3):
     date = datetime.datetime(rng.randrange(1999, 2031), rng.randrange(1, 13), rng.randrange(1, 29),
                              rng.randrange(24), rng.randrange(60), rng.randrange(60), tzinfo=tz)
     plain = "\n".join(rand_text(rng, fam, rng.randrange(1, 9)) for _ in range(rng.randrange(1, 5)))
+    rep = repertoire(cs) if fam is not None and cs not in ("utf-8", "us-ascii", "iso-2022-jp") else []
+    if rep and rng.random() < 0.7:
+        # characters from anywhere in the declared charset's repertoire (printable ones also in subject and names)
+        sens = sensitive(cs)
+        rw = lambda k: "".join(pick(rng, sens) if sens and rng.random() < 0.5 else pick(rng, rep) for _ in range(k))
+        plain += "\n" + " ".join(rw(rng.randrange(1, 6)) for _ in range(rng.randrange(1, 5)))
+        printable = [c for c in rep if c.isprintable()]
+        if printable and rng.random() < 0.6:
+            sp_ = [c for c in sens if c.isprintable()]
+            subject += " " + "".join(pick(rng, sp_) if sp_ and rng.random() < 0.5 else pick(rng, printable) for _ in range(rng.randrange(1, 5)))
     if rng.random() < 0.25:
         # body lines resembling separators (mboxo/mboxrd escaping is applied when written to an mbox)
         plain += "\n" + pick(rng, ["From here on it is 2024", "From me to you", ">From quoted 1999", "From bob@x.test Mon Jan  1 00:00:00 2024",
@@ -141,7 +217,9 @@ def gen_spec(rng, fixture_docx=None, max_att=3):
         "msgid": f"<{rng.randrange(10**9)}.{rng.randrange(10**6)}@{pick(rng, DOMAINS)}>",
         "plain": plain, "html": html, "layout": layout, "attachments": atts, "charset": cs, "family": fam,
         "cte": pick(rng, ["base64", "quoted-printable", "8bit", None]),
-        "api": pick(rng, ["modern", "modern", "legacy"]), "hdr_enc": pick(rng, ["B", "Q", None]),
+        # only the legacy API writes the declared (non-UTF-8) charset on the wire
+        "api": pick(rng, ["modern", "modern", "legacy"] if cs in ("utf-8", "us-ascii") else ["legacy", "legacy", "modern"]),
+        "hdr_enc": pick(rng, ["B", "Q", None]),
         "refold": pick(rng, [None, None, "tab", "tight"]),
         "att_name_style": pick(rng, ["rfc2231", "rfc2047", "raw"]),
         "date_style": pick(rng, [None, None, None, "nozone", "nozone", "named", "noweekday", "comment", "year2", "noseconds"]),
